@@ -4,7 +4,12 @@ Line-protocol driver + implementation-output checker for the C08 model (`txfee`)
 One op line = one signed transaction (see harness/txfee_test.go for the grammar):
 `tx floor=<coin> conv=<denom>:<rate> sched=<type:coin:rcp:bips|…> payfee=<coin|-> fee=<coins>
  gas=<n> balP= balG= balX= fg=<0|1> allow=<-|unl|coins> auth=<0|1> sig=<ok|bad> force=<0|1>
- body=<tok;tok;…> obs=<c><d>`
+ body=<tok;tok;…> [re=1 floor2=<coin> conv2=<denom>:<rate> sched2=<…>] obs=<c><d>[<r>]`
+
+`re=1`: the transaction's life spans a fee-schedule change — admitted by `CheckTx(New)` under
+the first configuration, then a block that does not contain it is committed and sets the second
+configuration (`floor2`/`conv2`/`sched2`), then `CheckTx(Recheck)`, then execution (when still in
+the mempool, or forced) under the second configuration.
 -/
 import PvModel.TxfeeSpec
 import PvModel.Util
@@ -15,6 +20,8 @@ open PvModel
 
 structure Op where
   cfg : Cfg
+  re : Bool        -- a committed block changes the configuration to `cfg2` and the tx is rechecked
+  cfg2 : Cfg
   tx : Tx
   st : St
   fg : Bool
@@ -119,12 +126,23 @@ def parseOp (ws : List String) : Option Op := do
   let obs := ((kv ws "obs").getD "--").toList
   let oc := obs.head? = some 'g'
   let od := obs.drop 1 |>.head?
+  let orc : Bool := (obs.drop 2).head? = some 'g'
+  let re := kv ws "re" = some "1"
+  let cfg1 : Cfg := { floor := floor, convDenom := convD, nhashPerUsdMil := convR, sched := sched }
+  let cfg2 ← if re then do
+      let floor2 ← (kv ws "floor2") >>= parseCoin?
+      let (convD2, convR2) ← match ((kv ws "conv2").getD "").splitOn ":" with
+        | [d, r] => r.toNat?.map fun r => (d, r)
+        | _ => none
+      let sched2 ← parseSched ((kv ws "sched2").getD "-")
+      pure ({ floor := floor2, convDenom := convD2, nhashPerUsdMil := convR2, sched := sched2 } : Cfg)
+    else pure cfg1
   let l0 : Ledger := (Ledger.entries "P" balP) ++ (Ledger.entries "G" balG) ++ (Ledger.entries "X" balX)
   pure {
-    cfg := { floor := floor, convDenom := convD, nhashPerUsdMil := convR, sched := sched },
+    cfg := cfg1, re := re, cfg2 := cfg2,
     tx := { fee := fee, gas := gas, payer := "P", granter := if fg then some "G" else none,
             top := acc.top, steps := acc.steps, sigOk := sig,
-            oogCheck := oc, oogAnte := od = some 'a', oogMsgs := od = some 'm' },
+            oogCheck := oc, oogAnte := od = some 'a', oogMsgs := od = some 'm', oogRecheck := orc },
     st := { ledger := l0, allow := allow },
     fg := fg, force := force, sends := acc.sends }
 
@@ -140,20 +158,25 @@ def showAllow : Allow → String
 
 /-- The model's output line. -/
 def render (op : Op) : String :=
-  let (cs, cerr) := checkTx op.cfg op.tx op.st
-  let check := match cerr with | none => "ok" | some e => e.toString
-  let cchg := s!"{showCoins (delta op.st.ledger cs.ledger "P")}/{showCoins (delta op.st.ledger cs.ledger "G")}"
-  let deliver := cerr.isNone ∨ op.force
-  if ¬ deliver then
-    s!"check={check} cchg={cchg} deliver=skip seq=0 allow={showAllow op.st.allow}" ++
+  let lf := life op.cfg op.cfg2 op.re op.force op.tx op.st
+  let chg (s1 : St) : String :=
+    s!"{showCoins (delta op.st.ledger s1.ledger "P")}/{showCoins (delta op.st.ledger s1.ledger "G")}"
+  let check := match lf.check with | none => "ok" | some e => e.toString
+  let recheck := match lf.recheck with
+    | none => "skip"
+    | some none => "ok"
+    | some (some e) => e.toString
+  let head := s!"check={check} cchg={chg lf.checkSt} recheck={recheck} rchg={chg lf.recheckSt}"
+  match lf.run with
+  | none =>
+    s!"{head} deliver=skip seq=0 allow={showAllow op.st.allow}" ++
       String.join (roles.map fun r => s!" {r}=-")
-  else
-    let r := deliverTx op.cfg op.tx op.st
+  | some r =>
     let d := match r.outcome with
       | .ok => "ok"
       | .rejected e => s!"ante:{e.toString}"
       | .failed e => s!"fail:{e.toString}"
-    s!"check={check} cchg={cchg} deliver={d} seq={r.final.seq} allow={showAllow r.final.allow}" ++
+    s!"{head} deliver={d} seq={r.final.seq} allow={showAllow r.final.allow}" ++
       String.join (roles.map fun a => s!" {a}={showCoins (delta op.st.ledger r.final.ledger a)}")
 
 /-! ### Checker: the property's conclusion on the implementation's observed output -/
@@ -161,6 +184,8 @@ def render (op : Op) : String :=
 structure Observed where
   check : String
   cchg : String
+  recheck : String
+  rchg : String
   deliver : String
   seq : String
   allow : String
@@ -172,7 +197,9 @@ def parseObserved (s : String) : Option Observed := do
     let v ← kv ws r
     let cs ← parseCoins? v
     pure (r, Coins.canon cs)
-  pure { check := ← kv ws "check", cchg := ← kv ws "cchg", deliver := ← kv ws "deliver",
+  pure { check := ← kv ws "check", cchg := ← kv ws "cchg",
+         recheck := (kv ws "recheck").getD "skip", rchg := (kv ws "rchg").getD "-/-",
+         deliver := ← kv ws "deliver",
          seq := ← kv ws "seq", allow := ← kv ws "allow", deltas := ds }
 
 /-- balance changes caused by the message handlers when every message succeeded -/
@@ -180,47 +207,76 @@ def sendsDelta (sends : List (Addr × Addr × Coins)) (a : Addr) : Coins :=
   sends.foldl (fun acc (f, t, cs) =>
     acc ++ (if f = a then Coins.neg cs else []) ++ (if t = a then cs else [])) []
 
-def allDenoms (op : Op) (is : List Incurred) (o : Observed) : List Denom :=
-  (Coins.denoms op.tx.fee ++ [op.cfg.floor.1] ++ is.map (·.denom) ++
+def allDenoms (op : Op) (o : Observed) : List Denom :=
+  (Coins.denoms op.tx.fee ++ [op.cfg.floor.1, op.cfg2.floor.1] ++
+    (stepsIncurred op.cfg op.tx.steps).map (·.denom) ++ (stepsIncurred op.cfg2 op.tx.steps).map (·.denom) ++
     (op.sends.flatMap fun s => Coins.denoms s.2.2) ++ (o.deltas.flatMap fun d => Coins.denoms d.2)).eraseDups
 
-/-- `ok`, `fail:<clause>`, or `-` (nothing to check). -/
+/-- `ok`, `fail:<clause>`, or `-` (nothing to check).  Everything is judged on the
+implementation's OBSERVED results (`check=`, `recheck=`, `deliver=`, balance deltas); the model's
+own opinion of what CheckTx should have said is not consulted. -/
 def verdict (op : Op) (o : Observed) : String :=
   let src := op.tx.from
-  let base := baseFee op.cfg.floor op.tx.gas
-  let is := stepsIncurred op.cfg op.tx.steps
-  let ds := allDenoms op is o
+  -- was the committed schedule change + recheck part of this transaction's life?
+  let rechecked : Bool := op.re && o.check == "ok"
+  -- the configuration in force when the transaction is executed
+  let cfgX := if rechecked then op.cfg2 else op.cfg
+  let base := baseFee cfgX.floor op.tx.gas
+  let is := stepsIncurred cfgX op.tx.steps
+  let ds := allDenoms op o
   let obs (a : Addr) : Coins := (o.deltas.find? (·.1 = a)).map (·.2) |>.getD []
+  -- "those the mempool check rejects must be rejected": what arrival / recheck had to demand
+  let underNew : Bool := !(admissible op.cfg op.tx.fee op.tx.gas op.tx.top ds)
+  let underRe : Bool := rechecked && !(admissible op.cfg2 op.tx.fee op.tx.gas op.tx.top ds)
   if o.check ≠ "ok" then
     -- rejected by the mempool check ⇒ never charged
     if o.cchg ≠ "-/-" then "fail:mempool_reject_charged"
     else if o.deliver = "skip" then "ok" else "-"
-  else if o.deliver = "skip" then "-"
-  else if o.deliver.startsWith "ante:" then "fail:admitted_tx_not_charged"
-  else if o.deliver.startsWith "fail:" then
-    -- failed ⇒ exactly the base fee, nothing else
-    let exp (a : Addr) : Coins := Coins.canon (ds.map fun d => (d, feeDeltaOnFailure "C" src base a d))
-    if obs src ≠ exp src then "fail:failed_tx_debit_not_base_fee"
-    else if obs "C" ≠ exp "C" then "fail:failed_tx_collector_not_base_fee"
-    else if roles.any (fun a => a ≠ src ∧ a ≠ "C" ∧ obs a ≠ []) then "fail:failed_tx_changed_other_balances"
-    else if o.seq ≠ "1" then "fail:failed_tx_sequence"
-    else if op.fg && (match useGrantedFees op.st.allow base with
-                      | .ok a => showAllow a != o.allow
-                      | .error _ => true) then "fail:failed_tx_allowance_not_base_fee"
-    else "ok"
-  else if o.deliver = "ok" then
-    let exp (a : Addr) : Coins := Coins.canon
-      (sendsDelta op.sends a ++ ds.map fun d => (d, feeDeltaOnSuccess "C" src op.tx.fee is a d))
-    if ¬ covered op.tx.fee base is ds then "fail:fee_not_covered_but_success"
-    else if obs src ≠ exp src then "fail:success_debit_not_declared_fee"
-    else match (roles.filter fun a => a ≠ src ∧ a ≠ "C").find? (fun a => obs a ≠ exp a) with
-      | some a => s!"fail:recipient_credit_wrong:{a}"
-      | none =>
-        if obs "C" ≠ exp "C" then "fail:collector_credit_wrong"
-        else if Coins.canon (roles.flatMap obs) ≠ [] then "fail:not_conserved"
-        else if o.seq ≠ "1" then "fail:success_sequence"
-        else "ok"
-  else "-"
+  else if rechecked ∧ o.recheck ≠ "ok" then
+    -- evicted by the recheck ⇒ never charged (and it should not have got in under-declared either)
+    if o.rchg ≠ "-/-" then "fail:recheck_reject_charged"
+    else if underNew then "fail:mempool_admitted_insufficient_fee"
+    else if o.deliver = "skip" then "ok" else "-"
+  else
+    -- in the mempool when the block was proposed
+    let succeeded := o.deliver = "ok"
+    let executed := succeeded ∨ o.deliver.startsWith "fail:"
+    -- what the paying account lost to fees: its balance change without what its own messages
+    -- sent/received (success only; nothing a handler did survives a failure)
+    let paid : Coins := ds.map fun d =>
+      (d, - Coins.amountOf (obs src) d + (if succeeded then Coins.amountOf (sendsDelta op.sends src) d else 0))
+    -- (a paying account that is also owed a recipient share has both mixed in one balance change:
+    -- left to the exact success clauses below)
+    let srcOwed : Bool := succeeded && ds.any fun d => owedTo src d is != 0
+    if executed ∧ ¬ srcOwed ∧ ¬ withinDeclared op.tx.fee paid ds then "fail:charged_more_than_declared"
+    else if underNew then "fail:mempool_admitted_insufficient_fee"
+    else if underRe then "fail:recheck_admitted_insufficient_fee"
+    else if o.deliver = "skip" then "-"
+    else if o.deliver.startsWith "ante:" then "fail:admitted_tx_not_charged"
+    else if o.deliver.startsWith "fail:" then
+      -- failed ⇒ exactly the base fee, nothing else
+      let exp (a : Addr) : Coins := Coins.canon (ds.map fun d => (d, feeDeltaOnFailure "C" src base a d))
+      if obs src ≠ exp src then "fail:failed_tx_debit_not_base_fee"
+      else if obs "C" ≠ exp "C" then "fail:failed_tx_collector_not_base_fee"
+      else if roles.any (fun a => a ≠ src ∧ a ≠ "C" ∧ obs a ≠ []) then "fail:failed_tx_changed_other_balances"
+      else if o.seq ≠ "1" then "fail:failed_tx_sequence"
+      else if op.fg && (match useGrantedFees op.st.allow base with
+                        | .ok a => showAllow a != o.allow
+                        | .error _ => true) then "fail:failed_tx_allowance_not_base_fee"
+      else "ok"
+    else if succeeded then
+      let exp (a : Addr) : Coins := Coins.canon
+        (sendsDelta op.sends a ++ ds.map fun d => (d, feeDeltaOnSuccess "C" src op.tx.fee is a d))
+      if ¬ covered op.tx.fee base is ds then "fail:fee_not_covered_but_success"
+      else if obs src ≠ exp src then "fail:success_debit_not_declared_fee"
+      else match (roles.filter fun a => a ≠ src ∧ a ≠ "C").find? (fun a => obs a ≠ exp a) with
+        | some a => s!"fail:recipient_credit_wrong:{a}"
+        | none =>
+          if obs "C" ≠ exp "C" then "fail:collector_credit_wrong"
+          else if Coins.canon (roles.flatMap obs) ≠ [] then "fail:not_conserved"
+          else if o.seq ≠ "1" then "fail:success_sequence"
+          else "ok"
+    else "-"
 
 def stepOp (ws : List String) (impl : Option String) : String × String :=
   match parseOp ws with
